@@ -163,7 +163,7 @@ func RunSeq(sc SeqScenario, o SeqOpts) *SeqResult {
 		}
 		for _, p := range pends {
 			r := decoded[p.s][p.idx]
-			res.Replies = append(res.Replies, r.String())
+			res.Replies = append(res.Replies, r.Canon())
 			if len(r.Hits) > 0 {
 				res.HitSeen = true
 			}
